@@ -58,7 +58,7 @@ CHECKS = {
                                 {"test": "TestC11", "variant": "386", "checks": 8000, "steps": 60, "shards": 2, "timeout": 3000}],
                 essential=["inspath_pathsplit_long", "merge", "merge_crossing_inline_limit", "gained_node16", "gained_node48", "gained_node256",
                            "lost_node16", "lost_node48", "lost_node256"]),
-    "C12": hist("TestC12", 1500, 60, 4000, 100,
+    "C12": hist("TestC12", 1200, 60, 4000, 100,
                 essential=["cross_tree_reuse_node4", "cross_tree_reuse_node16", "cross_tree_reuse_node48", "cross_tree_reuse_node256", "twin_created"]),
     "C13": hist("TestC13", 5000, 40, 12000, 60,
                 essential=["arena_spare_calls", "range", "prefix"]),
